@@ -298,8 +298,8 @@ Qed.
 Lemma render_value_layout ind els cs : simple_elements els false = true -> 1 <= ind ->
   exists V cs', render_value ind (Pattern els) cs = (V, cs') /\ value_layout els V.
 Proof.
-  intros Hv Hind. unfold render_value. unfold rbind at 1. destruct (choose 3 cs) as [block cs1].
-  destruct (Nat.eqb block 2 && first_byte_ok_for_block (Pattern els)) eqn:Eb.
+  intros Hv Hind. unfold render_value, render_value_with. unfold rbind at 1. destruct (choose 3 cs) as [block cs1].
+  destruct ((Nat.eqb block 2 || needs_block (Pattern els)) && first_byte_ok_for_block (Pattern els)) eqn:Eb.
   - apply andb_prop in Eb as [_ Hok].
     destruct (blank_inline_opt_spec cs1) as [k [cs2 E2]]. rewrite (rbind_eq _ _ _ _ _ E2).
     destruct (eol_spec' cs2) as [x [cs3 [E3 Hx]]]. rewrite (rbind_eq _ _ _ _ _ E3).
@@ -2453,8 +2453,24 @@ Lemma wf_pattern_els els :
   wf_pattern (Pattern els) = negb (match els with [] => true | _ => false end) && wf_els els false.
 Proof. reflexivity. Qed.
 Lemma lines_ok_pattern_els els :
-  lines_ok_pattern (Pattern els) = wf_pattern_lines (Pattern els) && lines_ok_els els.
+  lines_ok_pattern (Pattern els) = wf_pattern_lines_top (Pattern els) && lines_ok_els els.
 Proof. reflexivity. Qed.
+
+(* the strict line rule (variant values) implies the rule of top-level values *)
+Lemma wf_pattern_lines_top_of_strict p : wf_pattern_lines p = true -> wf_pattern_lines_top p = true.
+Proof.
+  unfold wf_pattern_lines, wf_pattern_lines_top. destruct (lines_of (skeleton p)) as [|l0 rest]; [auto|].
+  intros H. apply andb_prop in H as [H H6]. apply andb_prop in H as [H H5]. apply andb_prop in H as [H H4].
+  apply andb_prop in H as [H H3]. apply andb_prop in H as [H1 H2].
+  rewrite H1, H2, H3, H4, H5. cbn [andb].
+  destruct (min_list _); [rewrite H6; reflexivity | reflexivity].
+Qed.
+
+Lemma wf_value_strict els : wf_pattern (Pattern els) = true -> wf_pattern_lines (Pattern els) = true ->
+  lines_ok_els els = true -> wf_value (Pattern els) = true.
+Proof.
+  intros H1 H2 H3. unfold wf_value. rewrite H1, lines_ok_pattern_els, (wf_pattern_lines_top_of_strict _ H2), H3. reflexivity.
+Qed.
 
 Lemma simple_elements_wf els : forall prev, simple_elements els prev = true ->
   wf_els els prev = true /\ lines_ok_els els = true.
@@ -2535,9 +2551,7 @@ Proof.
   intros H. destruct (simple_pattern_spec p H) as [els [-> Hp]].
   destruct (simple_pattern_parts els Hp) as (Hne & Hs & Hf & Hl).
   destruct (simple_elements_wf els false Hs) as [W1 W2].
-  unfold wf_value. rewrite wf_pattern_els, lines_ok_pattern_els, W1, W2.
-  replace (match els with [] => true | _ :: _ => false end) with false by (destruct els; [congruence | reflexivity]).
-  cbn [negb andb]. rewrite andb_true_r.
+  apply wf_value_strict; [rewrite wf_pattern_els, W1; destruct els; [congruence | reflexivity] | | exact W2].
   unfold wf_pattern_lines, lines_of.
   rewrite (no_lf_lines_of _ [] (skeleton_no_lf els false Hs)). cbn [rev app last forallb filter map min_list].
   destruct (skeleton_first els Hne Hs Hf) as (b & t & Esk & Hb).
